@@ -4,5 +4,6 @@ cd "$(dirname "$0")" || exit 1
 export GOFLAGS=-mod=mod GOPROXY=off GOSUMDB=off GOTOOLCHAIN=local
 mkdir -p bin evidence replays
 go build -o bin/seq ./props/seq || exit 1
-go build -o bin/pure ./props/pure || exit 1
+go build -o bin/vinstr ./cmd/vinstr || exit 1
+tools/build_overlay.sh pure || exit 1
 echo "setup ok"
